@@ -29,10 +29,16 @@ def main(chk):
     rng = random.Random(chk.seed)
     q = chk.quick
     nc = 2 if q else 3
-    d = 4 if q else 5
-    configs = [dict(name=n, casc=n, consts=oc.consts(n, nc, dd), invs=INVS, props=PROPS, maxlen=dd, nrandom=100 if q else 1000)
-               for n, dd in (("default", d), ("orphan", d), ("all", d - 1), ("none", d - 1))]
-    deep = [dict(name="deep-" + n, casc=n, consts=oc.consts(n, 2, 5 if q else 6), invs=INVS, props=PROPS) for n in ("default", "orphan")]
+    nr = 100 if q else 1000
+    mk = lambda name, casc, n, dd: dict(name=name, casc=casc, consts=oc.consts(casc, n, dd), invs=INVS, props=PROPS, maxlen=dd, nrandom=nr)
+    if q:
+        configs = [mk("default", "default", 2, 4), mk("orphan", "orphan", 2, 4), mk("all", "all", 2, 3), mk("none", "none", 2, 3)]
+        deep = [dict(name="deep-" + n, casc=n, consts=oc.consts(n, 2, 5), invs=INVS, props=PROPS) for n in ("default", "orphan")]
+    else:
+        configs = [mk("default-2x3", "default", 3, 4), mk("orphan-2x3", "orphan", 3, 4), mk("default-2x2", "default", 2, 5), mk("orphan-2x2", "orphan", 2, 5),
+                   mk("all-2x2", "all", 2, 4), mk("none-2x2", "none", 2, 4)]
+        deep = [dict(name="deep-%s-2x3" % n, casc=n, consts=oc.consts(n, 3, 5), invs=INVS, props=PROPS) for n in ("default", "orphan")] + \
+               [dict(name="deep-%s-2x2" % n, casc=n, consts=oc.consts(n, 2, 6), invs=INVS, props=PROPS) for n in ("all", "none")]
     expose = [dict(name="single-flush", casc="default", consts=oc.consts("default", 2, 4, acts=["Delete", "Append", "SetParent", "Flush"], init="loaded"),
                    inv="FlushIsComplete", sig={"scope": "delete-marked-child-in-added-history-of-a-flushed-parent"},
                    what="one flush() does not write the pending state: a child marked with session.delete() and appended to another in-session "
